@@ -903,6 +903,7 @@ func main() {
 	filterOut := flag.String("filter", "", "output Lean file: translated bloom filter")
 	walOut := flag.String("wal", "", "output Lean file: translated WAL.Write")
 	kwayOut := flag.String("kway", "", "output Lean file: translated kway.merge")
+	codecOut := flag.String("codec", "", "output Lean file: translated Data.Encode")
 	flag.Parse()
 	if *locktable != "" {
 		genLockTable(*repo, *locktable)
@@ -939,6 +940,9 @@ func main() {
 	}
 	if *kwayOut != "" {
 		genKway(*repo, *kwayOut)
+	}
+	if *codecOut != "" {
+		genCodec(*repo, *codecOut)
 	}
 	if *skeleton != "" {
 		genSkeleton(*repo, *skeleton)
